@@ -27,6 +27,29 @@ func vpH_c18_validate() {
 	algKind := vpInt(0, 2)
 	algName := vpStrUpTo(vpParam("alglen"), "A-Za-z0-9")
 	kty := vpStrUpTo(3, "A-Za-z")
+	// the kind of an algorithm value follows from its name: the JOSE library
+	// gives the registered signature names kind 0, the registered key-encryption
+	// names kind 1, and every other name (also one that differs from a
+	// registered name only in letter case) the invalid kind 2
+	isSig, isKE := false, false
+	for _, n := range []string{"ES256", "ES256K", "ES384", "ES512", "EdDSA", "HS256", "HS384", "HS512", "PS256", "PS384", "PS512", "RS256", "RS384", "RS512", "none"} {
+		if algName == n {
+			isSig = true
+		}
+	}
+	for _, n := range []string{"A128KW", "A192KW", "A256KW", "ECDH-ES", "RSA-OAEP", "RSA1_5", "dir"} {
+		if algName == n {
+			isKE = true
+		}
+	}
+	switch algKind {
+	case 0:
+		vpAssume(isSig)
+	case 1:
+		vpAssume(isKE)
+	default:
+		vpAssume(!isSig && !isKE)
+	}
 	key := vpAbstractKey(valid, hasAlg, algKind, algName, kty, "")
 	err := Validate(key)
 	want := valid && hasAlg && algKind == 0 && vpApproved(kty, algName)
